@@ -1,11 +1,12 @@
 """C40 Predicate formula parse trees are faithful -- structural clauses."""
 import ast
+import copy
 import os
 import re
 from ..fn import World
 from ..index import AnalysisError, dotted
 from ..astutil import text, short, endswith, calls_in, walk_no_nested
-from ._h_F import ifn, Res, res_of, canon, _At, sole_arg
+from ._h_F import ifn, Res, res_of, canon, _At, sole_arg, need, repo_callees
 
 EXPLANATION = (
   "Decides (R1) that every TreeConverter.visit_X consumes every field of ast.X (except ctx / kind "
@@ -115,6 +116,7 @@ def r2_reject(run, w, tc):
       return False
     rets = r.returns()
     emits = [(n, v) for (n, v) in rets if not _rejecting(r, n, v, p)]
+    need(emits, "a return that builds the tree node", fn)
     ok = bool(emits) and not r.falls_off_end() and not r.bare_returns() and \
         all(r.known(n.id, op_test, True) for (n, v) in emits)
     run.ob(R2, fi.qualname, "if not isinstance(node.op, (...)): return self.generic_visit(node)",
@@ -131,6 +133,7 @@ def r2_reject(run, w, tc):
     return isinstance(a, ast.Compare) and isinstance(a.ops[0], ast.Eq) and \
         {r.norm(a.left, node.id), r.norm(a.comparators[0], node.id)} == {"len(%s.ops)" % p, "1"}
   rets = r.returns()
+  need(rets, "a return that builds the tree node", fn)
   ok = bool(rets) and not r.falls_off_end() and all(r.known(n.id, one_op, True)
                                                     for (n, v) in rets)
   run.ob(R2, fi.qualname, "if len(node.ops) != 1 ...: raise SyntaxError", "chained comparisons "
@@ -181,7 +184,9 @@ def r3_tags(run, w, tc):
                 floor=20)
   emitted = set()
   # literal tags at the head of returned lists
-  for fi in list(tc.methods.values()) + [w.repo.func("predicate_formula.parse_predicate_formula")]:
+  # (anywhere in the module: the converter's methods, the parse function, helpers they call)
+  mod = w.repo.module("predicate_formula")
+  for fi in list(tc.methods.values()) + list(mod.functions.values()):
     for n in ast.walk(fi.node):
       if isinstance(n, ast.List) and n.elts and isinstance(n.elts[0], ast.Constant) and \
           isinstance(n.elts[0].value, str):
@@ -264,12 +269,18 @@ def r4_leaves(run, w, tc):
         run.ob(R4, fi.qualname, "leaf %s" % short(leaf, 50), "leaf is JSON-safe (%s)" % why, ok,
                fi=fi, node=leaf)
   ppf = ifn(w, "predicate_formula.parse_predicate_formula")
-  ok = any(isinstance(n, ast.List) and n.elts and text(n.elts[0]) == "'Comment'" and
-           text(n.elts[2]).endswith(".strip()") for n in ast.walk(ppf.node))
+  comments = [n for f in [ppf.node] + [x.node for x in w.repo.module("predicate_formula")
+                                        .functions.values()]
+              for n in ast.walk(f) if isinstance(n, ast.List) and len(n.elts) == 3 and
+              text(n.elts[0]) == "'Comment'"]
+  need(comments, "the ['Comment', tree, text] node", ppf)
+  ok = all(text(n.elts[2]).endswith(".strip()") or
+           (isinstance(n.elts[2], ast.Call) and dotted(n.elts[2].func) == "str") for n in comments)
   run.ob(R4, ppf.qualname, "['Comment', result, part[1][1:].strip()]", "comment text is a str",
          ok, fi=ppf.fi, nontrivial=False)
   # errors raised while converting are (re)raised as SyntaxError only
   trys = [s for s in ppf.node.body if isinstance(s, ast.Try)]
+  need(trys, "the try statement around the conversion", ppf)
   ok = len(trys) == 1 and [text(h.type) for h in trys[0].handlers] == ["SyntaxError"] and \
       all(isinstance(h.body[-1], ast.Raise) and isinstance(h.body[-1].exc, ast.Call) and
           "SyntaxError" in text(h.body[-1].exc) for h in trys[0].handlers)
@@ -299,6 +310,37 @@ def _leaves(e, r, nid, seen=None, depth=0):
     d = dotted(e.func) or ""
     if d.startswith("self.visit") or d == "self.generic_visit":
       return []
+    tg = repo_callees(r.fn.world, r.fn, e)
+    if tg:
+      # a helper that was not dissolved (decorated, large): its own returns, with its parameters
+      # read as the arguments passed here
+      if len(tg) != 1 or depth > 2:
+        raise AnalysisError("%s: part of the tree is built by %s, which is not followed"
+                            % (r.fn.qualname, d or short(e.func, 40)))
+      g = r.fn.world.fn_of(tg[0])
+      gr = res_of(r.fn.world, g)
+      ps = [x for x in tg[0].params() if not (tg[0].cls is not None and x in ("self", "cls"))]
+      mapping = {}
+      for i, a in enumerate(e.args):
+        if isinstance(a, ast.Starred) or i >= len(ps):
+          raise AnalysisError("%s: call of %s not understood" % (r.fn.qualname, d))
+        mapping[ps[i]] = a
+      for k in e.keywords:
+        if k.arg is None or k.arg not in ps:
+          raise AnalysisError("%s: call of %s not understood" % (r.fn.qualname, d))
+        mapping[k.arg] = k.value
+      class Sub(ast.NodeTransformer):
+        def visit_Name(self, n):
+          if isinstance(n.ctx, ast.Load) and n.id in mapping:
+            return copy.deepcopy(mapping[n.id])
+          return n
+      out = []
+      for (gn, gv) in gr.returns(expand=False):
+        for (leaf, at) in _leaves(gv, gr, gn.id, set(), depth + 1):
+          out.append((Sub().visit(gr.expand(leaf, at)), nid))
+      if gr.falls_off_end() or gr.bare_returns():
+        out.append((ast.Constant(value=None), nid))
+      return out
   if isinstance(e, ast.Name):
     if depth > 6 or (e.id, nid) in seen:
       return []
